@@ -57,6 +57,15 @@ func programs(thorough bool) []*prog.Shape {
 			shapes = append(shapes, c)
 		}
 	}
+	// fourth axis: the same struct written with grouped declarations that also
+	// name an unexported field ("u0, F0 int32" and "F0, u0 int32"): every shape
+	// of depth <= 1 with <= 2 leaves
+	for _, s := range prog.Enumerate(1, 2, 9) {
+		for _, d := range []string{"u", "g"} {
+			c, _ := prog.ParseSig("^" + d + s.Sig())
+			shapes = append(shapes, c)
+		}
+	}
 	return shapes
 }
 
@@ -122,7 +131,7 @@ func run(c *fw.Ctx) {
 	const batchSize = 130
 	nb := (len(shapes) + batchSize - 1) / batchSize
 	c.Bound("programs", len(shapes))
-	c.Bound("grammar", "leaves int32 x {required, optional, repeated}, groups {required, optional, repeated}; quick: depth<=2 & leaves<=2 (2073) + 39 single-leaf shapes x 7 other leaf types + every shape in which two groups have the same children once more with one shared struct type for them (~); thorough adds depth<=3 & leaves<=2 and depth<=1 & leaves<=3")
+	c.Bound("grammar", "leaves int32 x {required, optional, repeated}, groups {required, optional, repeated}; quick: depth<=2 & leaves<=2 (2073) + 39 single-leaf shapes x 7 other leaf types + every shape in which two groups have the same children once more with one shared struct type for them (~) + every shape of depth<=1 with <=2 leaves declared with grouped names including an unexported one (^u, ^g); thorough adds depth<=3 & leaves<=2 and depth<=1 & leaves<=3")
 	classes := map[string]int64{}
 	for b := 0; b < nb; b++ {
 		if b%c.Shards != c.Shard {
